@@ -58,6 +58,14 @@ def _split_long_branches(
         num_subbranches = 1
         split_branch = [branch]
         while length > max_branch_len:
+            if len(branch) // (num_subbranches + 1) < 2:
+                # Every subbranch needs at least two traced points. A branch that is
+                # traced too coarsely (or a single-point soma) is not split further.
+                warn(
+                    "A branch is longer than `max_branch_len` but has too few traced "
+                    "points to be split further."
+                )
+                break
             num_subbranches += 1
             split_branch = _split_branch_equally(branch, num_subbranches)
             lengths_of_subbranches = _compute_pathlengths(
